@@ -79,9 +79,9 @@ VEC = r'''
 mod verif_c11v {
     use crate::verif_common::*;
     use crate::*;
-    fn stub_powf(x: f32, y: f32) -> f32 { x * y + 1.0 }
-    fn stub_expf(x: f32) -> f32 { x + x + 1.0 }
-    fn stub_cbrtf(x: f32) -> f32 { x * 0.5 + 0.25 }
+    fn stub_powf(x: f32, y: f32) -> f32 { f32::from_bits(x.to_bits() ^ y.to_bits().rotate_left(7) ^ 0x5555_5555) }
+    fn stub_expf(x: f32) -> f32 { f32::from_bits(x.to_bits().rotate_left(3) ^ 0x0F0F_0F0F) }
+    fn stub_cbrtf(x: f32) -> f32 { f32::from_bits(x.to_bits().rotate_left(5) ^ 0x3333_3333) }
     fn anyp() -> [f32; 3] { [kani::any(), kani::any(), kani::any()] }
     fn same(a: &[f32; 3], b: &[f32; 3]) -> bool { a[0].to_bits() == b[0].to_bits() && a[1].to_bits() == b[1].to_bits() && a[2].to_bits() == b[2].to_bits() }
 
